@@ -24,6 +24,7 @@ from .util import (
     json_dumps,
     json_loads,
     event_as_json,
+    encode_basestring,
     JSONDecodeError,
 )
 from .errors import AuthenticationError, StorageError
@@ -48,7 +49,7 @@ async def send_subscriptions(get_from_storage, ws_send, log):
                 message = event_as_json(sub_id, event)
             else:
                 # done with stored events
-                message = f'["EOSE","{sub_id}"]'
+                message = f'["EOSE",{encode_basestring(sub_id)}]'
 
             await ws_send(message)
             # log.debug("SENT: %s", message)
